@@ -125,14 +125,20 @@ Ltac use_lemma c1 c2 :=
   destruct c1 eqn:E1; destruct c2 eqn:E2; unfold Prel in L; cbn [Rrel fst snd] in L;
   try contradiction; clear E1 E2; norm.
 
+(* same scrutinee on both sides: the equation is only kept where later steps need it (negations of results) *)
+Ltac case_same c :=
+  lazymatch c with
+  | negb _ => destruct c eqn:?
+  | _ => destruct c
+  end.
 Ltac step :=
   lazymatch goal with
   | |- Rrel _ ?l ?r =>
       let c1 := head_scrut l in let c2 := head_scrut r in
-      first [ constr_eq c1 c2; destruct c1 eqn:?; proj | use_lemma c1 c2 ]
+      first [ constr_eq c1 c2; case_same c1; proj | use_lemma c1 c2 ]
   | |- Prel _ ?l ?r =>
       let c1 := head_scrut l in let c2 := head_scrut r in
-      first [ constr_eq c1 c2; destruct c1 eqn:?; proj | use_lemma c1 c2 ]
+      first [ constr_eq c1 c2; case_same c1; proj | use_lemma c1 c2 ]
   end.
 Lemma Rrel_weaken {A} (Q' Q : A -> vst -> vst -> Prop) r1 r2 :
   Rrel Q' r1 r2 -> (forall a t1 t2, Q' a t1 t2 -> Q a t1 t2) -> Rrel Q r1 r2.
